@@ -46,11 +46,11 @@ type Engine struct {
 	callees     map[*ssa.Function][]*ssa.Function
 	globals     map[*types.Var]*ssa.Global
 	addrTaken   map[string][]*ssa.Function // functions used as values by signature key
-	heapSorts   map[string]string
+	heapSorts   map[string]heapDesc
 	hmu         sync.RWMutex
 }
 
-func (e *Engine) regHeap(name, sort string) {
+func (e *Engine) regHeap(name string, d heapDesc) {
 	e.hmu.RLock()
 	_, ok := e.heapSorts[name]
 	e.hmu.RUnlock()
@@ -59,16 +59,17 @@ func (e *Engine) regHeap(name, sort string) {
 	}
 	e.hmu.Lock()
 	if e.heapSorts == nil {
-		e.heapSorts = map[string]string{}
+		e.heapSorts = map[string]heapDesc{}
 	}
-	e.heapSorts[name] = sort
+	e.heapSorts[name] = d
 	e.hmu.Unlock()
 }
 
-func (e *Engine) heapSortOf(name string) string {
+func (e *Engine) heapDescOf(name string) (heapDesc, bool) {
 	e.hmu.RLock()
 	defer e.hmu.RUnlock()
-	return e.heapSorts[name]
+	d, ok := e.heapSorts[name]
+	return d, ok
 }
 
 func (e *Engine) heapNames() []string {
@@ -476,6 +477,7 @@ func (e *Engine) modSetOf(vc *FnVC, f *ssa.Function) modSet {
 	visited := map[*ssa.Function]bool{}
 	m := &modSet{heaps: map[string]bool{}}
 	e.modCollect(vc, f, m, visited)
+	e.addGhostFollowers(vc, m)
 	e.mu.Lock()
 	e.modMemo[f] = m
 	e.mu.Unlock()
@@ -606,3 +608,72 @@ func pkgPathOf(f *ssa.Function) string {
 }
 
 var _ = token.NoPos
+
+// addGhostFollowers: a ghost field declared "follows f" may change whenever H:T.f may.
+func (e *Engine) addGhostFollowers(vc *FnVC, m *modSet) {
+	for tk, gs := range e.db.Ghosts {
+		for _, g := range gs {
+			if g.Follows == "" {
+				continue
+			}
+			if m.heaps["H:"+tk+"."+g.Follows] {
+				name := "H:" + tk + "." + g.Name
+				e.regHeap(name, heapDesc{kind: "raw", raw: "(Array Int " + ghostSort(g.GoType) + ")"})
+				m.heaps[name] = true
+			}
+		}
+	}
+}
+
+// specFor returns the contract of a function: its own clauses plus those of a function-type contract
+// whose signature it has (every such function must refine the function-type contract).
+func (e *Engine) specFor(f *ssa.Function) (*FuncSpec, []string) {
+	own := e.db.Funcs[e.keyOf(f)]
+	if f.Signature.Recv() != nil || f.Parent() != nil {
+		return own, nil
+	}
+	for key, ft := range e.db.Funcs {
+		if ft.Kind != "functype" {
+			continue
+		}
+		tn := strings.TrimPrefix(key, "functype:")
+		sig := e.sigOfNamed(tn)
+		if sig == nil || sigKey(sig) != sigKey(f.Signature) || !e.inRepo(f) {
+			continue
+		}
+		if own != nil && own.Opaque {
+			return own, nil
+		}
+		ft.Used = true
+		merged := &FuncSpec{Key: e.keyOf(f), Kind: "func", File: ft.File, Line: ft.Line, Unclaimed: map[string]string{}, HasMods: ft.HasMods, Tags: ft.Tags}
+		merged.Clauses = append(merged.Clauses, ft.Clauses...)
+		if own != nil {
+			merged.Clauses = append(merged.Clauses, own.Clauses...)
+			merged.Inline = own.Inline
+			merged.Tags = append(append([]string{}, ft.Tags...), own.Tags...)
+			for k, v := range own.Unclaimed {
+				merged.Unclaimed[k] = v
+			}
+			own.Used = true
+		}
+		return merged, ft.Params
+	}
+	return own, nil
+}
+
+func (e *Engine) sigOfNamed(tn string) *types.Signature {
+	i := strings.LastIndex(tn, ".")
+	if i < 0 {
+		return nil
+	}
+	p := e.pkgByName(tn[:i])
+	if p == nil {
+		return nil
+	}
+	obj, ok := p.Scope().Lookup(tn[i+1:]).(*types.TypeName)
+	if !ok {
+		return nil
+	}
+	sig, _ := obj.Type().Underlying().(*types.Signature)
+	return sig
+}
